@@ -7,6 +7,7 @@ import RjModel.Lemmas.ListingLemmas
 import RjModel.Lemmas.FilteredListing
 import RjModel.Lemmas.DoerLemmas
 import RjModel.Lemmas.ComposeLemmas
+import RjModel.Lemmas.PlanBridge
 /-! # C01 — a successful sync makes the destination a mirror of the source
 
 What is proved (for every tree pair, arrival order and poll schedule):
@@ -476,6 +477,162 @@ example :
         decide (r.1.fs.get ["R".toList, "f".toList] = fs'.get ["R".toList, "f".toList]) &&
         decide (r.1.fs.get ["R".toList, "f".toList] = some (.file [7, 8, 9] (.at 4))) && decide (r.2.2 = none)
      | _ => false) = true := by
+  decide
+
+/-- **The boss's two action lists are `planDel` / `planCpy`, as command lists, for every arrival order.**  Take a source
+listing and a destination listing at component level (names are names, one entry per path, nothing special, source
+times at or after the epoch) and let their entries reach the boss in *any* interleaving (`evs`).  Then the planner does
+not panic, and what the boss then iterates - `to_delete` in reversed order, `to_copy` in order - spelled as the commands
+it sends (`deleteCmd`; `copyCmds`, for source streams that deliver each file's bytes in parts) is **exactly**
+the command list of `syncDest`'s plan (`delCmdOf` over `planDel`, `cpyCmdsOf` over `planCpy`).  With
+`C01_delete_trace` / `C01_copy_trace` (these are the commands a run without error sent) and
+`C01_doer_trace_is_syncDest` (the doer model executing them is `syncDest`) the chain from the arrival of the listings
+to the final file system is closed by theorems. -/
+theorem C01_boss_lists_are_the_plan (ks kd : SymKind) (ls : List (FPath × SEntry)) (ld : List (FPath × Node))
+    (src : FPath → Option SEntry) (dst : FPath → Option Node) (evs : List Ev)
+    (files : List (String × FileScript)) (parts : FPath → List (List UInt8) × List UInt8)
+    (hes : srcOf evs = ls.map (fun x => (pathStr x.1, dOfSEntry ks x.2)))
+    (hed : dstOf evs = ld.map (fun x => (pathStr x.1, dOfNode kd x.2)))
+    (hgs : ∀ x ∈ ls, GoodPath x.1) (hgd : ∀ x ∈ ld, GoodPath x.1)
+    (hns : (ls.map (·.1)).Nodup) (hnd : (ld.map (·.1)).Nodup)
+    (hsp : ∀ x ∈ ld, x.2 ≠ .special) (hm : ∀ x ∈ ls, ∀ b m, x.2 = .file b m → 0 ≤ m)
+    (hs1 : ∀ x ∈ ls, src x.1 = some x.2) (hs2 : ∀ p e, src p = some e → (p, e) ∈ ls)
+    (hd1 : ∀ x ∈ ld, dst x.1 = some x.2) (hd2 : ∀ p n, dst p = some n → (p, n) ∈ ld)
+    (hfiles : ∀ x ∈ ls, ∀ b m, x.2 = .file b m →
+      C11.consumed (fileScript files (pathStr x.1)) = (parts x.1).1.map (fun c => (c, true)) ++ [((parts x.1).2, false)]) :
+    ∃ s, prun ⟨true, false⟩ PState.init evs = some s ∧
+      s.del.reverseOrder.iter.map (fun it => deleteCmd it.1 it.2.1) = (planDel src ld).map (delCmdOf (fun _ => kd)) ∧
+      s.cpy.iter.flatMap (fun it => copyCmds files it.1 it.2.1) = (planCpy dst ls).flatMap (cpyCmdsOf (fun _ => ks) parts) := by
+  have nds : ((srcOf evs).map (·.1)).Nodup := by
+    rw [hes, List.map_map]
+    have : (ls.map ((fun x : String × Details => x.1) ∘ fun x => (pathStr x.1, dOfSEntry ks x.2))) = (ls.map (·.1)).map pathStr := by
+      simp [List.map_map, Function.comp_def]
+    rw [this]
+    apply nodup_map_of_inj_on pathStr _ hns
+    intro a ha b hb hab
+    obtain ⟨x, hx, rfl⟩ := List.mem_map.mp ha
+    obtain ⟨y, hy, rfl⟩ := List.mem_map.mp hb
+    exact pathStr_inj (hgs x hx) (hgs y hy) hab
+  have ndd : ((dstOf evs).map (·.1)).Nodup := by
+    rw [hed, List.map_map]
+    have : (ld.map ((fun x : String × Details => x.1) ∘ fun x => (pathStr x.1, dOfNode kd x.2))) = (ld.map (·.1)).map pathStr := by
+      simp [List.map_map, Function.comp_def]
+    rw [this]
+    apply nodup_map_of_inj_on pathStr _ hnd
+    intro a ha b hb hab
+    obtain ⟨x, hx, rfl⟩ := List.mem_map.mp ha
+    obtain ⟨y, hy, rfl⟩ := List.mem_map.mp hb
+    exact pathStr_inj (hgd x hx) (hgd y hy) hab
+  obtain ⟨s, hrun, hdel, hcpy⟩ := plan_lists ⟨true, false⟩ evs nds ndd
+  have hS : ∀ p, GoodPath p → lookup (srcOf evs).reverse (pathStr p) = (src p).map (dOfSEntry ks) := by
+    intro p hp; rw [hes]; exact lookup_listing ls (dOfSEntry ks) src hgs hns hs1 hs2 p hp
+  have hD : ∀ p, GoodPath p → lookup (dstOf evs).reverse (pathStr p) = (dst p).map (dOfNode kd) := by
+    intro p hp; rw [hed]; exact lookup_listing ld (dOfNode kd) dst hgd hnd hd1 hd2 p hp
+  have hLd : (dstOf evs).map (·.1) = ld.map (fun x => pathStr x.1) := by rw [hed]; simp [List.map_map, Function.comp_def]
+  have hLs : (srcOf evs).map (·.1) = ls.map (fun x => pathStr x.1) := by rw [hes]; simp [List.map_map, Function.comp_def]
+  refine ⟨s, hrun, ?_, ?_⟩
+  · -- deletions
+    rw [hdel, hLd]
+    generalize lookup (srcOf evs).reverse = S at *
+    generalize lookup (dstOf evs).reverse = D at *
+    rw [← List.map_reverse, List.filterMap_map]
+    unfold planDel
+    rw [← List.filter_reverse]
+    have key := filterMap_flatMap_eq ld
+      ((fun k => (delSpec ⟨true, false⟩ S D k).map fun v => (k, v)) ∘ fun x => pathStr x.1)
+      (fun it => [deleteCmd it.1 it.2.1]) (needDel src) (fun x => [delCmdOf (fun _ => kd) x]) (by
+        intro x hx
+        have hx' : x ∈ ld := hx
+        obtain ⟨p, n⟩ := x
+        have hgp := hgd _ hx'
+        have hDp : D (pathStr p) = some (dOfNode kd n) := by rw [hD p hgp, hd1 _ hx']; rfl
+        have hSp := hS p hgp
+        have hcmd := (C01_trace_spelling kd p n (hsp _ hx') "" [] [] 0).1
+        simp only [Function.comp, delSpec, hDp, needDel]
+        cases hsrc : src p with
+        | none =>
+          rw [hsrc] at hSp
+          simp only [Option.map_none] at hSp
+          simp [hSp, hcmd]
+        | some e =>
+          rw [hsrc] at hSp
+          simp only [Option.map_some] at hSp
+          have hb := (C01_plan_bridge ks kd e n (hsp _ hx') (fun b m he => hm (p, e) (hs2 p e hsrc) b m he)).1
+          simp only [hSp, hb]
+          cases hc : compatible e n <;> simp [hcmd])
+    rw [flatMap_single, flatMap_single] at key
+    simpa using key
+  · -- copies
+    rw [hcpy, hLs]
+    generalize lookup (srcOf evs).reverse = S at *
+    generalize lookup (dstOf evs).reverse = D at *
+    rw [List.filterMap_map]
+    unfold planCpy
+    apply filterMap_flatMap_eq ls
+      ((fun k => (cpySpec ⟨true, false⟩ S D k).map fun v => (k, v)) ∘ fun x => pathStr x.1)
+      (fun it => copyCmds files it.1 it.2.1) (needCpy dst) (cpyCmdsOf (fun _ => ks) parts)
+    intro x hx
+    obtain ⟨p, e⟩ := x
+    have hgp := hgs _ hx
+    have hSp : S (pathStr p) = some (dOfSEntry ks e) := by rw [hS p hgp, hs1 _ hx]; rfl
+    have hDp := hD p hgp
+    -- the commands of this entry do not depend on the reason
+    have hcmd : ∀ r : CopyReason, copyCmds files (pathStr p) (dOfSEntry ks e, r).1 = cpyCmdsOf (fun _ => ks) parts (p, e) := by
+      intro r
+      cases e with
+      | folder => rfl
+      | link t => rfl
+      | file b m =>
+        simp only [dOfSEntry, copyCmds, cpyCmdsOf]
+        rw [hfiles (p, .file b m) hx b m rfl]
+        exact chunkCmds_eq (pathStr p) (parts p).1 (parts p).2 m
+    simp only [Function.comp, cpySpec, hSp, needCpy]
+    cases hdst : dst p with
+    | none =>
+      rw [hdst] at hDp
+      simp only [Option.map_none] at hDp
+      simp only [hDp]
+      exact ⟨fun _ => ⟨_, rfl, hcmd _⟩, fun h => by simp at h⟩
+    | some n =>
+      rw [hdst] at hDp
+      simp only [Option.map_some] at hDp
+      have hn : n ≠ .special := hsp (p, n) (hd2 p n hdst)
+      have hb := C01_plan_bridge ks kd e n hn (fun b m he => hm (p, e) hx b m he)
+      simp only [hDp, hb.1]
+      cases hc : compatible e n with
+      | false =>
+        have hu : upToDate e n = false := by
+          cases hu : upToDate e n with
+          | false => rfl
+          | true => rw [upToDate_compatible e n hu] at hc; cases hc
+        simp only [Bool.not_false, ↓reduceIte, hu, Bool.not_false]
+        exact ⟨fun _ => ⟨_, rfl, hcmd _⟩, fun h => by simp at h⟩
+      | true =>
+        have hb2 := hb.2 hc
+        simp only [Bool.not_true, Bool.false_eq_true, ↓reduceIte]
+        cases hnc : needsCopy ⟨true, false⟩ (dOfSEntry ks e) (dOfNode kd n) with
+        | none =>
+          rw [hnc] at hb2
+          simp only [Option.isNone_none] at hb2
+          simp only [Option.map_none, ← hb2]
+          exact ⟨fun h => by simp at h, fun _ => trivial⟩
+        | some r =>
+          rw [hnc] at hb2
+          simp only [Option.isNone_some] at hb2
+          simp only [Option.map_some, ← hb2]
+          exact ⟨fun _ => ⟨_, rfl, hcmd r⟩, fun h => by simp at h⟩
+
+/-- Non-vacuity (a *test* on one instance, the theorem is above): destination entries arriving before, between and after
+the source's; the planner's lists spelled as commands are the plan's -/
+example :
+    let ls : List (FPath × SEntry) := [(["a".toList], .file [1, 2] 7), (["d".toList], .folder), (["d".toList, "f".toList], .file [3] 1)]
+    let ld : List (FPath × Node) := [(["a".toList], .file [9] (.at 5)), (["d".toList], .file [1] (.at 1)), (["x".toList], .folder)]
+    let src : FPath → Option SEntry := fun p => ls.lookup p
+    let dst : FPath → Option Node := fun p => ld.lookup p
+    let evs := [Ev.dst "a" (.file 5 1), .src "a" (.file 7 2), .src "d" .folder, .dst "d" (.file 1 1), .dst "x" .folder, .src "d/f" (.file 1 1)]
+    (prun ⟨true, false⟩ PState.init evs).map (fun s => s.del.reverseOrder.iter.map (fun it => deleteCmd it.1 it.2.1))
+      = some ((planDel src ld).map (delCmdOf (fun _ => .unknown))) ∧
+    (prun ⟨true, false⟩ PState.init evs).map (fun s => s.cpy.iter.map (·.1)) = some ((planCpy dst ls).map (fun x => pathStr x.1)) := by
   decide
 
 end Rj.C01
